@@ -226,8 +226,10 @@ Qed.
    Field.rotate90 (model: Rotate90.field_rotate90) = numpy.rot90 on the data (shape n ++ [nvdim]) and on
    the validity (shape n), the two components that the reversed mapping assigns to the two axes rotated
    by the exact quarter turn kturn k (Rotate90.rot_comp), mesh with the cell counts and cell sizes of the
-   two axes exchanged for odd k (rotM; the boundary-condition string is NOT rotated by Mesh.rotate90, hence
-   the hypothesis in rot_ok that for odd k the two axes are both periodic or both open).
+   two axes exchanged for odd k, and -- since /repo 6c074f8c, where Mesh.rotate90 swaps the two letters in bc --
+   their periodic flags exchanged as well (rotM = swapM for odd k).  There is NO restriction on which axes
+   are periodic: rot_ok only asks for a well-formed mesh (one cell size and one flag per axis), a <> b in
+   range and a target cell inside the rotated mesh.
    All statements: any number of dimensions, any numbers of cells, ARBITRARY validity masks, open and
    periodic directions, every integer k. *)
 
@@ -344,9 +346,17 @@ Proof.
   split; [|reflexivity]. repeat constructor; simpl; intuition discriminate.
 Qed.
 
-Example C05_rot90_commute_nonvacuous : rot_ok QcOps C05_demo_mesh 0 2 1 [2; 3; 1]%nat.
+(* a mesh with exactly ONE periodic axis in the rotation plane (axis 0 periodic, axis 2 open), odd k *)
+Definition C05_demo_mesh_per : cmesh QcOps :=
+  mkCMesh QcOps [3; 4; 2]%nat [Q2Qc (1 # 2); Q2Qc 1; Q2Qc (1 # 4)] [true; false; false].
+
+Example C05_rot90_commute_nonvacuous :
+  rot_ok QcOps C05_demo_mesh_per 0 2 1 [1; 3; 2]%nat /\
+  cm_per (rotM QcOps C05_demo_mesh_per 0 2 1) = [false; false; true] /\
+  cm_sh (rotM QcOps C05_demo_mesh_per 0 2 1) = [2; 4; 3]%nat.
 Proof.
-  split; try reflexivity; try discriminate; try (cbv; lia).
+  split; [|split; reflexivity].
+  split; try (split; reflexivity); try discriminate; try (cbv; lia).
   split; [reflexivity|]. intros [|[|[|t]]] Ht; cbv in Ht |- *; lia.
 Qed.
 
